@@ -117,6 +117,7 @@ type ContractSet struct {
 	Lemmas    map[string]*Lemma
 	LemmaOrder []string
 	GhostVars map[string]string // ghost global name → type
+	GhostConst map[string]bool  // ghost constants (never modified)
 	Files     []string
 	ScanHits  []string // assume/axiom/trusted/bounded occurrences, for the evidence
 }
@@ -237,12 +238,20 @@ func (cs *ContractSet) loadContractFile(path, pkgName string) error {
 			}
 			cur.LoopInv[n] = append(cur.LoopInv[n], cl)
 		case "ghost":
-			if strings.HasPrefix(rest, "var ") {
-				f := strings.Fields(rest[4:])
+			if strings.HasPrefix(rest, "var ") || strings.HasPrefix(rest, "const ") {
+				// `ghost const`: a logical constant of the model (e.g. the content of the file being read):
+				// never assigned, and not havoc'd by `modifies *`
+				f := strings.Fields(rest)[1:]
 				if len(f) != 2 {
 					return fail("ghost var NAME TYPE")
 				}
 				cs.GhostVars[f[0]] = f[1]
+				if strings.HasPrefix(rest, "const ") {
+					if cs.GhostConst == nil {
+						cs.GhostConst = map[string]bool{}
+					}
+					cs.GhostConst[f[0]] = true
+				}
 				continue
 			}
 			gs, err := parseVarList(rest)
